@@ -329,7 +329,7 @@ func vfC09Scenarios(thorough bool) []*vfGWScenario {
 	out = append(out, &vfGWScenario{Name: "gater", Cfg: vfGWCfg{Router: "gossip", Peers: peers[:2:2], Topics: []string{"t"}, Params: "d2", Scoring: true, Gater: true, ValThrottle: 1, SeenTTL: 3600,
 		Validators: []vfValCfg{{Name: "V", Topic: "t", Gated: true, GateOnly: []string{"m1", "m5"}}},
 		Prefix:     []string{"conn:a", "conn:b", "join:t", "sub:a:t", "sub:b:t", "pub:a:m1", "pub:a:m2", "vrel:V:m1:R", "pub:b:m5", "vrel:V:m5:R"}},
-		Alphabet: []string{"pub:a:m3", "pub:b:m6", "graft:a:t", "prune:a:t", "ihave:a:t:m4", "idw:a:m4", "score:b:-5", "hb"}, Msgs: gmsgs, Depth: d,
+		Alphabet: []string{"pub:a:m3", "pub:b:m6", "graft:a:t", "prune:a:t", "ihave:a:t:m4", "idw:a:m4", "score:b:-5", "score:a:-4.5", "hb"}, Msgs: gmsgs, Depth: d,
 		DevKinds: []string{"coin"}, DevEvents: []string{"pub", "graft", "prune", "ihave", "idw"}, DevMax: 4})
 	return out
 }
